@@ -399,28 +399,26 @@ func GenHistory(r *hx.Rand, tier string, funded bool) string {
 	admin := func() uint64 { return witness(AdminID) }
 	posVals := []uint64{500, 500, 1000, 1000, 1500, 2500, 5000, 10000, 20000, 250, 0, 700}
 	if era >= 3000000 && r.Chance(45) {
-		// scenario: ten active nodes for K = 7 consensus seats. One new node with a large stake pushes a genesis node out,
-		// two new nodes with the minimum stake stay candidates; authorizers stake on candidate AND consensus nodes in two
+		// scenario: ten active nodes for K = 7 consensus seats. Three new nodes with large stakes push the three genesis
+		// nodes with the minimum stake out: they stay candidates; authorizers stake on candidate AND consensus nodes in two
 		// consecutive epochs, unauthorize around NewPos / NewPos+settled, and withdraw at the bound after every epoch change.
-		hi := newNodes[r.Intn(3)]
 		for _, p := range newNodes {
 			a := owners[p]
-			st := uint64(10000)
-			if p == hi {
-				st = 30000
-			}
-			emit(fmt.Sprintf("reg:%d:%d:%d:%d", a, p, a, st))
+			emit(fmt.Sprintf("reg:%d:%d:%d:%d", a, p, a, pick(r, 30000, 30000, 20000)))
 			if era < 8600000 {
 				emit(fmt.Sprintf("appr:%d:%d", AdminID, p))
 			}
 			emit(fmt.Sprintf("maxauth:%d:%d:%d:%d", a, p, a, 200000))
 		}
+		// genesis peer 4 (11000) gets more stake, so the 10000-stake genesis peers 1, 5, 8 stay candidates even with a
+		// few thousand ONT of authorization
+		emit("addpos:3:4:3:5000")
 		for _, g := range GenesisPeers {
-			if r.Chance(50) {
+			if g[2] == 10000 || r.Chance(30) {
 				emit(fmt.Sprintf("maxauth:%d:%d:%d:%d", g[1], g[0], g[1], 200000))
 			}
 		}
-		targets := []uint64{3, 6, 9, uint64(1 + r.Intn(NPeers))}
+		targets := []uint64{1, 1, 5, 8, 3, 6, uint64(1 + r.Intn(NPeers))}
 		stakers := []uint64{9, 10, 11}
 		for epoch := 0; epoch < 2+r.Intn(3); epoch++ {
 			for _, u := range stakers {
